@@ -43,8 +43,12 @@ SUPPORTED_GROUP_TYPES = (
 def txlock(f):
     def _wrapper(self, *args, **kwargs):
         self.lock_tx()
-        result = f(self, *args, **kwargs)
-        self.unlock_tx()
+        try:
+            result = f(self, *args, **kwargs)
+        finally:
+            # Always release the lock, even if the handler (or a user hook it
+            # calls) raised: a held lock would block every later PDU.
+            self.unlock_tx()
         return result
     return _wrapper
 
